@@ -144,6 +144,22 @@ fn obj_mode(ops: &[String]) {
 
 fn main() {
 	let args: Vec<String> = std::env::args().skip(1).collect();
+	if args.first().map(|s| s.as_str()) == Some("unord") {
+		// `unord k=v,k=v k=v,k=v`: unordered_eq(A, B) and unordered_eq(B, A) on the real Object
+		use json_syntax::{Object, UnorderedPartialEq, Value};
+		let build = |s: &str| -> Object {
+			let mut o = Object::new();
+			for kv in s.split(',').filter(|x| !x.is_empty()) {
+				let (k, v) = kv.split_once('=').unwrap();
+				o.push(k.into(), Value::from(v.parse::<i64>().unwrap()));
+			}
+			o
+		};
+		let a = build(args.get(1).map(|s| s.as_str()).unwrap_or(""));
+		let b = build(args.get(2).map(|s| s.as_str()).unwrap_or(""));
+		println!("{} {}", a.unordered_eq(&b), b.unordered_eq(&a));
+		return;
+	}
 	if args.first().map(|s| s.as_str()) == Some("obj") {
 		std::panic::set_hook(Box::new(|_| {}));
 		obj_mode(&args[1..]);
